@@ -14,6 +14,7 @@ import (
 	"sort"
 	"strings"
 	"testing"
+	"time"
 	"unicode"
 
 	"github.com/grafana/regexp"
@@ -205,6 +206,8 @@ func vfC01Sub(r *vfRand, s string) string {
 	n := 1 + r.Intn(6)
 	if r.Chance(15) {
 		n = 1 + r.Intn(2)
+	} else if r.Chance(20) {
+		n = 4 + r.Intn(6) // long patterns: many trigrams to select from
 	}
 	if n > len(rs) {
 		n = len(rs)
@@ -890,6 +893,61 @@ func vfC01QueryClasses(q query.Q, out map[string]bool) {
 	}
 }
 
+// vfC01Leaves: the trigram selection of every substring atom of the (unpruned) match tree built for q, in tree order:
+// (leftPad, rightPad, distance, freq=0). Internal observable, read through the overlay.
+func vfC01Leaves(d *indexData, q query.Q) string {
+	sq := d.simplify(q)
+	if c, ok := sq.(*query.Const); ok && !c.Value {
+		return "None"
+	}
+	sq = query.Map(sq, query.ExpandFileContent)
+	mt, err := d.newMatchTree(sq, matchTreeOpt{})
+	if err != nil {
+		return "None"
+	}
+	var ls []string
+	visitMatchTree(mt, func(m matchTree) {
+		st, ok := m.(*substrMatchTree)
+		if !ok {
+			return
+		}
+		res, ok := st.matchIterator.(*ngramIterationResults)
+		if !ok {
+			return
+		}
+		switch it := res.matchIterator.(type) {
+		case *noMatchTree:
+			ls = append(ls, cTuple(cNat(0), cNat(0), cNat(0), "true"))
+		case *ngramDocIterator:
+			dist := 0
+			if di, ok := it.iter.(*distanceHitIterator); ok {
+				dist = int(di.distance)
+			}
+			ls = append(ls, cTuple(cNat(int(it.leftPad)), cNat(int(it.rightPad)), cNat(dist), "false"))
+		}
+	})
+	return cSome(cListOr(ls, "nat * nat * nat * bool"))
+}
+
+// vfC01SearchWatchdog runs the search in a goroutine so that a search that never returns becomes a finding with a replay.
+func vfC01SearchWatchdog(d *indexData, q query.Q) (*zoekt.SearchResult, error, bool) {
+	type out struct {
+		res *zoekt.SearchResult
+		err error
+	}
+	ch := make(chan out, 1)
+	go func() {
+		res, err := d.Search(context.Background(), q, &zoekt.SearchOptions{})
+		ch <- out{res, err}
+	}()
+	select {
+	case o := <-ch:
+		return o.res, o.err, false
+	case <-time.After(20 * time.Second):
+		return nil, nil, true
+	}
+}
+
 func TestVerifC01(t *testing.T) {
 	r := vfNewRand(vfSeed())
 	n := vfN(300)
@@ -906,7 +964,15 @@ func TestVerifC01(t *testing.T) {
 			q := e.gen(r, 1+r.Intn(4))
 			ser := &vfC01Ser{e: e, runes: map[rune]bool{}}
 			qc := ser.q(q)
-			res, err := d.Search(context.Background(), q, &zoekt.SearchOptions{})
+			res, err, hung := vfC01SearchWatchdog(d, q)
+			if hung {
+				var dd []map[string]any
+				for _, x := range docs {
+					dd = append(dd, map[string]any{"name": x.name, "content": x.content, "mask": x.mask, "repo": x.repo, "lang": x.lang})
+				}
+				vfOracleFail("search:hang", "Search did not return within 20s on a tiny shard", map[string]any{"query": q.String(), "docs": dd})
+				return // the search goroutine is still spinning; end the test (and the process) here
+			}
 			if err != nil {
 				t.Fatalf("Search(%s): %v", q, err)
 			}
@@ -947,7 +1013,7 @@ func TestVerifC01(t *testing.T) {
 				continue
 			}
 			repos, dcs, langs := vfC01CorpusCoq(ser)
-			coq := cTuple(repos, dcs, langs, ser.folds(), cListOr(ser.retbl, "N * list (bool * bool)"), qc, cListOr(rows, "nat * list N"))
+			coq := cTuple(repos, dcs, langs, ser.folds(), cListOr(ser.retbl, "N * list (bool * bool)"), qc, cListOr(rows, "nat * list N"), vfC01Leaves(d, q))
 			vfCase(coq, vfKey(repos, dcs, qc), len(want) > 0 && len(want) < len(docs),
 				append(vfSortedKeys(classes), fmt.Sprintf("repos=%d", len(d.repoMetaData)), fmt.Sprintf("hits=%d", min(len(want), 3))),
 				map[string]any{"case": fmt.Sprintf("%d/%d", i, j), "query": q.String(), "docs": len(docs), "got": got, "want": want})
